@@ -253,6 +253,10 @@ def run(ctx, widen=False):
             ctx.count("roundtrips_ok")
     if not widen:
         probe_bom_key(ctx)
+    # >>> a_wr (wave 4): reused writers, write_tape at depth, inner()/into_inner(), builder defaults
+    from props import C14_reuse
+    C14_reuse.run(ctx, _fail)
+    # <<< a_wr
 
 
 def probe_bom_key(ctx):
